@@ -31,6 +31,7 @@ type CaseC17 struct {
 	Procs      int                    `json:"procs"`
 	Yield      int                    `json:"yield"`                  // Gosched every Yield-th operation
 	SeqViaJSON bool                   `json:"seq_via_json,omitempty"` // the shared MapSeq went through Copy (JSON): float64 sequence numbers
+	Alias      *AliasSpec             `json:"alias,omitempty"`        // one container object gets a second parent in the shared Map
 }
 
 func init() { register("C17", checkC17) }
@@ -98,6 +99,9 @@ func genC17(t *rapid.T) CaseC17 {
 	c.Procs = rapid.SampledFrom([]int{2, 4, 16}).Draw(t, "procs")
 	c.Yield = rapid.IntRange(1, 4).Draw(t, "yield")
 	c.SeqViaJSON = rapid.Bool().Draw(t, "seqviajson")
+	if c.Value != nil && rapid.IntRange(0, 4).Draw(t, "alias") == 0 {
+		c.Alias = &AliasSpec{Src: rapid.IntRange(0, 30).Draw(t, "asrc"), Dst: rapid.IntRange(0, 30).Draw(t, "adst"), Key: rapid.SampledFrom(shapeKeys).Draw(t, "akey")}
+	}
 	if c.Value != nil && rapid.IntRange(0, 3).Draw(t, "nestedlists") == 0 {
 		c.Value["nl"] = []interface{}{[]interface{}{"a", "b", map[string]interface{}{"k": "v"}}, []interface{}{[]interface{}{"c"}}, "s"}
 	}
@@ -274,6 +278,9 @@ func checkC17(c CaseC17, info *Info) *Failure {
 	var shared mxj.Map
 	if c.Value != nil {
 		shared = mxj.Map(copyMap(c.Value))
+		if c.Alias != nil && applyAlias(shared, *c.Alias, true) {
+			info.Class("shared sub-structure in the shared Map")
+		}
 	} else {
 		m, err := mxj.NewMapXml(doc)
 		if err != nil {
